@@ -675,3 +675,54 @@ def r17_7(run, modules=("pandapipes.toolbox",), label="the restructuring tools",
 
 
 RULES.append(("R17.7", r17_7))
+
+
+def relabel_sites(ix):
+    """[(function, node, table term, new-labels term, ok)]: the index of a table of the net is replaced (`T.index = v`,
+    `T.set_index(v)`, `T.set_axis(v)`); ok iff v is computed from T's own index (a label map), not taken from elsewhere"""
+    from ..arrnf import ANF, C, base_of, contains, key as tkey, walk
+    out = []
+    for f in ix.module(TB).functions.values():
+        if not any(isinstance(n, ast.Attribute) and n.attr in ("index", "set_index", "set_axis") for n in ast.walk(f.raw_node)):
+            continue
+        try:
+            r = ANF(ix, f, strip=False).run()
+        except AnalysisError:
+            continue
+        seen = set()
+        for e in r.events:
+            if e.kind == "store" and e.index == (C(".index"),):
+                tbl = base_of(e.base)
+                out.append((f, e.node, tbl, e.value, contains(e.value, ("attr", tbl, "index"))))
+            for t in (getattr(e, "term", None), getattr(e, "value", None)):
+                if not isinstance(t, tuple):
+                    continue
+                for x in walk(t):
+                    if isinstance(x, tuple) and x and x[0] == "call" and x[1][0] == "attr" and x[1][2] in ("set_index", "set_axis") and x[2] \
+                            and tkey(x) not in seen:
+                        seen.add(tkey(x))
+                        tbl = base_of(x[1][1])
+                        new = x[2][0]
+                        if new[0] == "c" or (new[0] in ("list", "tuple") and all(y[0] == "c" for y in new[1])):
+                            continue        # a column name: set_index("name") moves a column into the index
+                        out.append((f, e.node, tbl, new, contains(new, ("attr", tbl, "index"))))
+    return out
+
+
+def r17_8(run):
+    """the tools that give elements new labels keep every row with its element: the index of a table is replaced only by a map of
+    its OWN old labels (`T.index = get_indices(T.index, lookup)`), never by the labels of another table assigned by position
+    (`res.set_index(net[element].index)` pairs the k-th result row with the k-th element row, which is another element whenever
+    the two tables are not in the same row order)."""
+    from ..arrnf import show as tshow
+    ix = run.index
+    sites = relabel_sites(ix)
+    for f, node, tbl, new, ok in sites:
+        run.analysed(f)
+        run.ob("%s|%s|relabelled-by-a-map-of-its-own-labels" % (f.short, tshow(tbl)[:40]), ok,
+               "the new index of %s is computed from its own old index" % tshow(tbl)[:40], run.where(f, node), detail=tshow(new)[:120])
+    run.stat("index_replacements_in_toolbox", len(sites))
+    run.floor(2)
+
+
+RULES.append(("R17.8", r17_8))
